@@ -556,6 +556,46 @@ RATIO_POOL = sorted({F(a, b) for a in (1, 2, 3, 5, 7, 14, 21) for b in (1, 2, 3,
 HUGE = 2**60
 
 
+def gen_equalcost_election(rng: random.Random, btypes=("app",), m=(3, 6), n=(2, 6)):
+    """elections in which several projects have the SAME cost (costs drawn from one or two values), ballots approve many
+    projects and the budget fits some of them only: what counts per ballot here — how many of its projects fit together,
+    their total cost — is what the voter-normalised measures divide by; a helper that collapses equal costs, or equal
+    projects, into one shows on nothing else"""
+    sub = rng.getrandbits(48)
+    r = random.Random(sub)
+    btype = r.choice(list(btypes))
+    k = r.randint(*m)
+    names = r.sample(NAME_POOL, k)
+    a = F(r.choice([1, 2, 2, 3, 5])) / r.choice([1, 1, 1, 2, 3])
+    b = a * r.choice([1, 2, 2, 3, F(3, 2)])
+    costs = [a if r.random() < 0.65 else b for _ in names]
+    projects = list(zip(names, costs))
+    tot = sum(costs, F(0))
+    u = r.random()
+    if u < 0.6:
+        budget = a * r.randint(2, max(2, k - 1))
+    else:
+        budget = max(costs) + (tot - max(costs)) * F(r.randint(1, 7), 8)
+    nv = r.randint(*n)
+    ballots = []
+    for _ in range(nv):
+        if btype == "app":
+            bl = [x for x in names if r.random() < 0.65]
+            if len(bl) < 2:
+                bl = r.sample(names, min(2, k))
+            r.shuffle(bl)
+        elif btype in ("card", "cum"):
+            bl = {x: F(r.choice([1, 1, 2, 3])) for x in names if r.random() < 0.7}
+            if not bl:
+                bl = {r.choice(names): F(1)}
+        else:
+            bl = r.sample(names, r.randint(min(2, k), k))
+        ballots.append(bl)
+    if r.random() < 0.4 and ballots:
+        ballots.append(ballots[0] if btype != "card" and btype != "cum" else dict(ballots[0]))
+    return Case(projects, budget, btype, ballots, seed=sub)
+
+
 def gen_proportional_election(rng: random.Random, btypes=("app",), m=(2, 6), n=(2, 8)):
     """exact-arithmetic stress: the cost of most projects is (total support) x k for one of two rational factors k, so
     that projects are TIED on support per unit of cost at a value that is usually not a dyadic number, while their costs
